@@ -177,29 +177,51 @@ def h_inspect_small(e, mnems, mode, cfg=None):
     for m, f in zip(mnems, fields):
         a = zx(reg0(f["rs1"]) + f["imm"], 32)
         e.assume(land(cond(">=", a, 2**14), cond("<=", a, 2**14 + 7)))
+        if len(mnems) >= 3:
+            e.assume(cond("==", a & 3, 0))  # longer programs: the two word addresses only
         e.assume(cond("!=", f.get("rd", 1), f["rs1"]) if "rd" in f else True)
+    # base registers keep their initial values: no load writes a register used as a base later
+    for i_, fi in enumerate(fields):
+        if "rd" not in fi:
+            continue
+        for fj in fields[i_ + 1:]:
+            e.assume(cond("!=", fi["rd"], fj["rs1"]))
     names = getters(c.sim)
     lower = c.lower_mem()
 
+    from checks.snap import cache_snapshot
+
     def memsnap():
-        return {k: val(v) for k, v in sorted(lower.memory_file.items())}
+        d = {"mem": {k: val(v) for k, v in sorted(lower.memory_file.items())}, "keys": list(lower.memory_file.keys())}
+        st_ = c.sim.state
+        if hasattr(st_.memory, "cache"):
+            d["dcache"] = cache_snapshot(st_.memory)
+        if hasattr(st_.instruction_memory, "cache"):
+            d["icache"] = cache_snapshot(st_.instruction_memory)
+        d["regs"] = [val(r) for r in st_.register_file.registers]
+        d["metrics"] = deep(st_.performance_metrics)
+        d["pc"] = st_.program_counter
+        d["output"] = st_.output
+        return d
 
     n = 0
-    while not c.sim.is_done() and n < 40:
+    while not c.sim.is_done() and n < 60:
         try:
             c.sim.step()
         except InstructionExecutionException:
             break
         n += 1
-        M0 = memsnap()
-        regs0 = [val(r) for r in c.sim.state.register_file.registers][:0]
-        for name in names:
-            r1 = call(c.sim, name)
-            r2 = call(c.sim, name)
-            e.claim_eq("s%d:repeatable:%s" % (n, name), r2, r1)
-        M1 = memsnap()
-        e.claim_eq("s%d:memory-dict-unchanged" % n, M1, M0)
-        e.claim("s%d:memory-keys-unchanged" % n, list(M1.keys()) == list(M0.keys()))
+        if n == 1 or c.sim.is_done():
+            M0 = memsnap()
+            acc = []
+            for name in names:
+                r1 = call(c.sim, name)
+                r2 = call(c.sim, name)
+                acc.append(("s%d:repeatable:%s" % (n, name), r2, r1))
+            M1 = memsnap()
+            for k_ in M0:
+                acc.append(("s%d:state-unchanged:%s" % (n, k_), M1[k_], M0[k_]))
+            claim_all(e, "s%d:pure" % n, acc)
     rows = c.sim.get_data_memory_entries()
     e.observe("rows", [r[0][0] for r in rows])
     e.claim("table-lists-written-words", all(any(k // 4 * 4 == r[0][0] for r in rows) for k in lower.memory_file.keys()))
@@ -261,6 +283,8 @@ def h_inspect_toy_table(e, opcode):
 HARNESSES = {"inspect": h_inspect, "small": h_inspect_small, "toy": h_inspect_toy, "toy_table": h_inspect_toy_table}
 MODES = ["single_stage_pipeline", "five_stage_pipeline"]
 CFGS = [None, ("wb", "lru", 1, 0, 2), ("wt", "plru", 1, 1, 2)]
+# the small harness keeps all addresses within two words: single-set caches make them compete
+SMALL_CFGS = [None, ("wb", "lru", 0, 0, 2), ("wt", "plru", 0, 0, 2), ("wb", "lru", 1, 0, 2)]
 
 
 def jobs(tier, seed):
@@ -284,8 +308,8 @@ def jobs(tier, seed):
         for ci, cfg in enumerate(CFGS[1:], 1):
             for sk in ((["lw"], ["sw"], ["sb"], ["lhu"]) if quick else (["lw"], ["sw"], ["sb"], ["lhu"], ["sb", "lw"], ["lw", "sw"], ["add", "lw"])):
                 out.append(dict(common, label="insp%s-c%d:%s" % (ms, ci, ",".join(sk)), harness="inspect", args={"mnems": sk, "mode": mode, "cfg": cfg, "stride": 3}, cost=25, validate_every=4))
-        for ci, cfg in enumerate(CFGS[:2] if quick else CFGS):
-            for sk in ((["sw"], ["sb", "lw"]) if quick else (["sw"], ["sb", "sw"], ["sw", "lw"], ["sh", "sb", "lbu"])):
+        for ci, cfg in enumerate(SMALL_CFGS[:3] if quick else SMALL_CFGS):
+            for sk in ((["sw"], ["sb", "lw"], ["sw", "sw", "lw", "lw"]) if quick else (["sw"], ["sb", "sw"], ["sw", "lw"], ["sw", "sw"], ["sw", "sw", "lw", "lw"], ["sw", "lw", "sw", "lw"], ["sh", "sb", "lbu"])):
                 out.append(dict(common, label="small%s-c%d:%s" % (ms, ci, ",".join(sk)), harness="small", args={"mnems": sk, "mode": mode, "cfg": cfg}, cost=20, validate_every=2))
     out.append(dict(common, label="toy", harness="toy", args={"steps": 2}, cost=100, validate_every=10))
     for k in range(13):
